@@ -24,6 +24,20 @@ structure Foot (c' : Nat) (s s' : State) : Prop where
   pubs     : ∀ k g x p, s.bc.rcvs c' = .waiting k g x → s'.bc.pubs p = s.bc.pubs p ∨
                ((∀ pk v, s.bc.pubs p ≠ .holding pk v g) ∧ (∀ pk v, s'.bc.pubs p ≠ .holding pk v g))
 
+/-- when the stub's `Receive` step can run at all (whatever `Receive` answers) -/
+theorem callReceive_isSome (sk : Skeleton) (t : State) (c : Nat) :
+    (step sk t (.callReceive c)).isSome =
+      decide ((t.crashed = false ∧ (t.calls c).pc = .marshalled) ∧
+              (t.bc.crashed = false ∧ t.bc.lockHolder = none ∧ t.bc.rcvs c = .absent)) := by
+  have hb := Bc.receive_isSome sk t.bc c c (t.calls c).ctx
+  by_cases h1 : t.crashed = false ∧ (t.calls c).pc = .marshalled
+  · cases hs : Bc.step sk t.bc (.receive c c (t.calls c).ctx) with
+    | none => simp only [step, h1, hs, and_self, if_true]; simp [hs] at hb; simpa using hb
+    | some b' =>
+      simp only [step, h1, hs, and_self, if_true]; simp [hs] at hb
+      (repeat' split) <;> simp [hb]
+  · simp [step, h1]
+
 theorem foot_enabled (sk : Skeleton) {s s' : State} (c' : Nat) (hf : Foot c' s s') (b : Act)
     (hb : actCall b = some c') : (step sk s' b).isSome = (step sk s b).isSome := by
   obtain ⟨f1, f2, f3, f4, f5, f6, f7, f8, f9, f10, f11, f12⟩ := hf
@@ -53,6 +67,9 @@ theorem foot_enabled (sk : Skeleton) {s s' : State} (c' : Nat) (hf : Foot c' s s
         cases hp : s.bc.pubs p <;> simp only [he] <;> first | rfl | grind
       · cases hp : s.bc.pubs p <;> cases hp' : s'.bc.pubs p <;> simp only [he] <;> (try rfl) <;> grind
     | _ => grind
+  | callReceive c =>
+    simp [actCall] at hb; subst hb
+    rw [callReceive_isSome, callReceive_isSome, f1, f2, f3, f6, f10]
   | _ =>
     simp [actCall] at hb <;> subst hb <;> simp only [step, Bc.step, f1, f2, f3, f4, f5, f6, f7, f8, f9, f10] <;>
       first | rfl | grind
